@@ -272,7 +272,7 @@ func checkC20(tier string, seed int64) *CustomResult {
 		Coverage: map[string]interface{}{
 			"states": run.states, "transitions": run.transitions, "traces_validated_against_impl": run.transitions,
 			"evaluations": run.queries, "distinct_nontrivial": len(run.nontrivial), "exhaustive": true, "samples": run.samples,
-			"rule": fmt.Sprintf("ring buffer: every sequence over {Add, Resize(1..%d)} up to depth %d from every initial capacity 1..%d, executed on the real ring buffer; in every state every query start in 0..id+2 x count in 0..cap+2 and MaxUint64 is compared with a plain-slice reference. store: every sequence over {Store, Collect, SetStoreSize(1..3)} up to depth %d. non-trivial = the reference answer contains at least one event", maxCap, depth, maxCap, sdepth),
+			"rule":        fmt.Sprintf("ring buffer: every sequence over {Add, Resize(1..%d)} up to depth %d from every initial capacity 1..%d, executed on the real ring buffer; in every state every query start in 0..id+2 x count in 0..cap+2 and MaxUint64 is compared with a plain-slice reference. store: every sequence over {Store, Collect, SetStoreSize(1..3)} up to depth %d. non-trivial = the reference answer contains at least one event", maxCap, depth, maxCap, sdepth),
 			"explanation": "explicit-state search without a separate model: every state is reached by executing the operations on the implementation plus, for the stream, every lock-granularity interleaving of the publisher body with CreateEventStream under the cooperative scheduler (engine E2)",
 		},
 		Violations: run.found,
